@@ -646,8 +646,14 @@ class Engine:
             if c is not None and not init and not (self.key or "").endswith("__init__"):       # a constructor may give its object new attributes
                 # a field no contract declares cannot be in any modifies clause: writing it on an object that existed before the call is a write outside
                 # the frame (a new attribute on notation / shared state).  Decidable although the rest of the function is not.
-                self.oblige(st, obj_t > st.old.heap.alloc, "frame", f"{cname}.{fname}", node,
-                            text=f"store to {cname}.{fname}, a field no contract declares, targets an object allocated by this call (otherwise: a write outside the frame)")
+                ob_u = self.oblige(st, obj_t > st.old.heap.alloc, "frame", f"{cname}.{fname}", node,
+                                   text=f"store to {cname}.{fname}, a field no contract declares, targets an object allocated by this call (otherwise: a write outside the frame)")
+                pcs = self.param_consts or ()
+                if z3.is_const(obj_t) and obj_t.decl().name() in pcs and self.feasible(st):
+                    # the object is a parameter of the function (it existed before the call) and the statement is reachable: decided without the solver, whose
+                    # `sat` answers under quantified hypotheses come and go with the variable numbering
+                    ob_u.verdict, ob_u.solver, ob_u.seconds, ob_u.preset = "refuted", "syntactic", 0.0, True
+                    ob_u.detail = ob_u.model = f"the object written is the parameter {obj_t.decl().name().split('!')[0]}"
             raise Unsupported(f"store to undeclared field {cname}.{fname}")
         fs = R.class_fields(cname)[fname]
         name = f"{owner}.{fname}"
